@@ -271,6 +271,7 @@ structure Inv (spec : Spec) (G : Nat → List Nat) (s0 s : FS) : Prop where
   fresh : ∀ r v, rawRef s r = some (.sha v) → rawRef s0 r = some (.sha v) ∨ NewClosed spec s v
   plain : ∀ n, PlainOldOrNew spec s0 s n
   typed : ∀ p c, s p = some c → typedB p c = true
+  paired : ∀ p, PairedAt s p
 
 theorem closedVis_sound {spec : Spec} {s : FS} {K : Known} (h : Agrees s K) {v : Nat}
     (hc : closedVis spec K v = true) : NewClosed spec s v := by
@@ -286,6 +287,7 @@ theorem inv_init {spec : Spec} {G : Nat → List Nat} {s : FS} (hp : Pre spec G 
   fresh := fun _ _ h => Or.inl h
   plain := fun _ => Or.inl rfl
   typed := hp.typed
+  paired := hp.paired
 
 theorem inv_recoverable {spec : Spec} {G : Nat → List Nat} {s0 s : FS} (hp : Pre spec G s0)
     (h : Inv spec G s0 s) : Recoverable spec G s0 s where
@@ -293,6 +295,7 @@ theorem inv_recoverable {spec : Spec} {G : Nat → List Nat} {s0 s : FS} (hp : P
   kept := h.kept
   plain := h.plain
   typed := h.typed
+  paired := h.paired
   consistent := by
     intro o ⟨r, v, hr, hreach⟩
     rcases h.fresh r v hr with h0 | ⟨hc, hall⟩
@@ -306,8 +309,8 @@ theorem inv_step {spec : Spec} {G : Nat → List Nat} {s0 s : FS} {K K' : Known}
   have hK' : Agrees (step c s) K' := stepK_agrees hK hk
   unfold safeStep at hsafe
   simp only [List.all_eq_true, Bool.and_eq_true] at hsafe
-  have hobj : ∀ t ∈ touched c, objsOK spec K K' t = true := fun t ht => (hsafe t ht).1.1.2
-  have hrefs : ∀ t ∈ touched c, refsOK spec spec.known K K' t = true := fun t ht => (hsafe t ht).1.2
+  have hobj : ∀ t ∈ touched c, objsOK spec K K' t = true := fun t ht => (hsafe t ht).1.1.1.2
+  have hrefs : ∀ t ∈ touched c, refsOK spec spec.known K K' t = true := fun t ht => (hsafe t ht).1.1.2
   have hknown : ∀ t ∈ touched c, ∃ l, mayChange K K' t = some l := by
     intro t ht
     have := hrefs t ht
@@ -330,7 +333,7 @@ theorem inv_step {spec : Spec} {G : Nat → List Nat} {s0 s : FS} {K K' : Known}
     rcases vis_step hK hK' hobj hv with h1 | h1
     · exact h1
     · exact absurd h1 hg
-  refine ⟨?_, ?_, ?_, ?_, ?_⟩
+  refine ⟨?_, ?_, ?_, ?_, ?_, ?_⟩
   · -- refs
     intro r
     by_cases hne : rawRef (step c s) r = rawRef s r
@@ -378,7 +381,7 @@ theorem inv_step {spec : Spec} {G : Nat → List Nat} {s0 s : FS} {K K' : Known}
   · -- plain
     intro n
     by_cases ht : Path.plain n ∈ touched c
-    · have := (hsafe _ ht).2
+    · have := (hsafe _ ht).1.2
       simp only [plainOK] at this
       split at this
       · rename_i d hd
@@ -398,7 +401,7 @@ theorem inv_step {spec : Spec} {G : Nat → List Nat} {s0 s : FS} {K K' : Known}
   · -- typed
     intro p d hpd
     by_cases ht : p ∈ touched c
-    · have := (hsafe _ ht).1.1.1
+    · have := (hsafe _ ht).1.1.1.1
       unfold typedOK at this
       split at this
       · rename_i d' hd'
@@ -414,6 +417,39 @@ theorem inv_step {spec : Spec} {G : Nat → List Nat} {s0 s : FS} {K K' : Known}
       · cases this
     · rw [step_frame c s _ ht] at hpd
       exact h.typed p d hpd
+  · -- paired
+    intro p k k' objs h1 h2
+    have fromK : ∀ t ∈ touched c, (t = .pack p ∨ t = .idx p) → k = k' := by
+      intro t ht htp
+      have := (hsafe t ht).2
+      have e : pairOK K' t = (match lk K' (.pack p), lk K' (.idx p) with
+          | some (some (.packData k)), some (some (.idxData k' _)) => k == k'
+          | some _, some _ => true
+          | _, _ => false) := by
+        rcases htp with rfl | rfl <;> rfl
+      rw [e] at this
+      split at this
+      · rename_i a b objs' ha hb
+        have ea := hK' _ _ ha
+        have eb := hK' _ _ hb
+        rw [h1] at ea; rw [h2] at eb
+        simp only [Option.some.injEq, Content.packData.injEq] at ea
+        simp only [Option.some.injEq, Content.idxData.injEq] at eb
+        rw [ea, eb.1]
+        simpa using this
+      · rename_i a b hnot ha hb
+        have ea := hK' _ _ ha
+        have eb := hK' _ _ hb
+        rw [h1] at ea; rw [h2] at eb
+        exact (hnot k k' objs ea.symm eb.symm).elim
+      · cases this
+    by_cases ht1 : Path.pack p ∈ touched c
+    · exact fromK _ ht1 (Or.inl rfl)
+    · by_cases ht2 : Path.idx p ∈ touched c
+      · exact fromK _ ht2 (Or.inr rfl)
+      · rw [step_frame c s _ ht1] at h1
+        rw [step_frame c s _ ht2] at h2
+        exact h.paired p k k' objs h1 h2
 
 theorem go_sound {spec : Spec} {G : Nat → List Nat} {s0 : FS} (hp : Pre spec G s0) :
     ∀ (p : List Call) (K : Known) (s : FS), Agrees s K → Inv spec G s0 s →
@@ -502,7 +538,7 @@ theorem pre_of_preK {spec : Spec} (h : preK spec = true) :
     Pre spec (graphOf spec) (toFS spec.known) := by
   unfold preK at h
   simp only [Bool.and_eq_true, List.all_eq_true] at h
-  obtain ⟨hrefs, htyped⟩ := h
+  obtain ⟨⟨hrefs, htyped⟩, hpair⟩ := h
   have hg : ∀ o ds, spec.edges.lookup o = some ds → graphOf spec o = ds := by
     intro o ds ho; simp [graphOf, ho]
   have closed : ∀ r v, rawRef (toFS spec.known) r = some (.sha v) →
@@ -512,7 +548,7 @@ theorem pre_of_preK {spec : Spec} (h : preK spec = true) :
     have := hrefs r (rawRefC_mem hr)
     rw [hr] at this
     exact closedVis_sound (agrees_toFS _) this
-  refine ⟨agrees_toFS _, hg, ?_, ?_, ?_⟩
+  refine ⟨agrees_toFS _, hg, ?_, ?_, ?_, ?_⟩
   · intro o ⟨r, v, hr, hreach⟩
     obtain ⟨hc, hall⟩ := closed r v hr
     exact (hall o (closed_sound hg hc hreach)).1
@@ -528,5 +564,16 @@ theorem pre_of_preK {spec : Spec} (h : preK spec = true) :
     have := htyped (p, some c) (lk_mem hl)
     simp only [hl] at this
     exact this
+  · intro p k k' objs h1 h2
+    have hl : lk spec.known (.pack p) = some (some (.packData k)) := by
+      unfold toFS at h1
+      cases hk : lk spec.known (.pack p) with
+      | none => simp [hk] at h1
+      | some oc => simp [hk] at h1; rw [h1]
+    have := hpair (.pack p, some (.packData k)) (lk_mem hl)
+    simp only [pairC] at this
+    unfold toFS at h1 h2
+    rw [h1, h2] at this
+    simpa using this
 
 end Dulwich.Crash
